@@ -1,5 +1,5 @@
 // auto-generated: "lalrpop 0.23.1"
-// sha3: d1d78319236d3906423cd694afac38920d439e5186efa3edc04fe5802e9e911c
+// sha3: 85c99bf0584db995b782799c5a06e0df8bfa4756286c6486a395f23691038fb8
 use crate::rt::*;
 #[allow(unused_extern_crates)]
 extern crate lalrpop_util as __lalrpop_util;
@@ -67,6 +67,7 @@ mod __parse__N0 {
         _40R((i64, i64, i64)),
         N0((i64, Tree, i64)),
         N1((i64, Tree, i64)),
+        N2((i64, Tree, i64)),
         ____N0((i64, Tree, i64)),
     }
 
@@ -82,12 +83,24 @@ mod __parse__N0 {
         match __lookahead {
             Some((__loc1, __tok @ Tok('c', _, _, _), __loc2)) => {
                 let __sym0 = (__loc1, (__tok), __loc2);
-                __result = __state2(__tokens, __sym0, core::marker::PhantomData::<()>)?;
+                __result = __state4(__tokens, __sym0, core::marker::PhantomData::<()>)?;
+            }
+            Some((_, Tok('d', _, _, _), _)) => {
+                let __start: i64 = __lookahead.as_ref().map(|o| o.0.clone()).unwrap_or_default();
+                let __end = __start.clone();
+                let __nt = super::__action16::<>(&__start, &__end)?;
+                let __nt = __Nonterminal::N2((
+                    __start,
+                    __nt,
+                    __end,
+                ));
+                __result = (__lookahead, __nt);
             }
             _ => {
                 #[allow(clippy::needless_raw_string_hashes)]
                 let __expected = alloc::vec![
                     r###""t2""###.to_string(),
+                    r###""t3""###.to_string(),
                 ];
                 return Err(
                     match __lookahead {
@@ -113,7 +126,10 @@ mod __parse__N0 {
             let (__lookahead, __nt) = __result;
             match __nt {
                 __Nonterminal::N0(__sym0) => {
-                    __result = __state1(__tokens, __lookahead, __sym0, core::marker::PhantomData::<()>)?;
+                    __result = __state2(__tokens, __lookahead, __sym0, core::marker::PhantomData::<()>)?;
+                }
+                __Nonterminal::N2(__sym0) => {
+                    __result = __state3(__tokens, __lookahead, __sym0, core::marker::PhantomData::<()>)?;
                 }
                 _ => {
                     return Ok((__lookahead, __nt));
@@ -123,6 +139,80 @@ mod __parse__N0 {
     }
 
     fn __state1<
+        __TOKENS: Iterator<Item=Result<(i64, Tok, i64),__lalrpop_util::ParseError<i64, Tok, u64>>>,
+    >(
+        __tokens: &mut __TOKENS,
+        __sym0: (i64, Tree, i64),
+        __sym1: (i64, Tok, i64),
+        _: core::marker::PhantomData<()>,
+    ) -> Result<(Option<(i64, Tok, i64)>, __Nonterminal<>), __lalrpop_util::ParseError<i64, Tok, u64>>
+    {
+        let mut __result: (Option<(i64, Tok, i64)>, __Nonterminal<>);
+        let __lookahead = match __tokens.next() {
+            Some(Ok(v)) => Some(v),
+            Some(Err(e)) => return Err(e),
+            None => None,
+        };
+        match __lookahead {
+            Some((__loc1, __tok @ Tok('c', _, _, _), __loc2)) => {
+                let __sym2 = (__loc1, (__tok), __loc2);
+                __result = __state4(__tokens, __sym2, core::marker::PhantomData::<()>)?;
+            }
+            Some((_, Tok('d', _, _, _), _)) => {
+                let __start = __lookahead.as_ref().map(|o| o.0.clone()).unwrap_or_else(|| __sym1.2.clone());
+                let __end = __start.clone();
+                let __nt = super::__action16::<>(&__start, &__end)?;
+                let __nt = __Nonterminal::N2((
+                    __start,
+                    __nt,
+                    __end,
+                ));
+                __result = (__lookahead, __nt);
+            }
+            _ => {
+                #[allow(clippy::needless_raw_string_hashes)]
+                let __expected = alloc::vec![
+                    r###""t2""###.to_string(),
+                    r###""t3""###.to_string(),
+                ];
+                return Err(
+                    match __lookahead {
+                        Some(__token) => {
+                            __lalrpop_util::ParseError::UnrecognizedToken {
+                                token: __token,
+                                expected: __expected,
+                            }
+                        }
+                        None => {
+                            let __location = __sym1.2.clone();
+                            __lalrpop_util::ParseError::UnrecognizedEof {
+                                location: __location,
+                                expected: __expected,
+                            }
+                        }
+                    }
+                )
+            }
+        }
+        #[allow(clippy::never_loop)]
+        loop {
+            let (__lookahead, __nt) = __result;
+            match __nt {
+                __Nonterminal::N0(__sym2) => {
+                    __result = __state5(__tokens, __lookahead, __sym0, __sym1, __sym2, core::marker::PhantomData::<()>)?;
+                    return Ok(__result);
+                }
+                __Nonterminal::N2(__sym2) => {
+                    __result = __state3(__tokens, __lookahead, __sym2, core::marker::PhantomData::<()>)?;
+                }
+                _ => {
+                    return Ok((__lookahead, __nt));
+                }
+            }
+        }
+    }
+
+    fn __state2<
         __TOKENS: Iterator<Item=Result<(i64, Tok, i64),__lalrpop_util::ParseError<i64, Tok, u64>>>,
     >(
         __tokens: &mut __TOKENS,
@@ -170,30 +260,26 @@ mod __parse__N0 {
         }
     }
 
-    fn __state2<
+    fn __state3<
         __TOKENS: Iterator<Item=Result<(i64, Tok, i64),__lalrpop_util::ParseError<i64, Tok, u64>>>,
     >(
         __tokens: &mut __TOKENS,
-        __sym0: (i64, Tok, i64),
+        __lookahead: Option<(i64, Tok, i64)>,
+        __sym0: (i64, Tree, i64),
         _: core::marker::PhantomData<()>,
     ) -> Result<(Option<(i64, Tok, i64)>, __Nonterminal<>), __lalrpop_util::ParseError<i64, Tok, u64>>
     {
         let mut __result: (Option<(i64, Tok, i64)>, __Nonterminal<>);
-        let __lookahead = match __tokens.next() {
-            Some(Ok(v)) => Some(v),
-            Some(Err(e)) => return Err(e),
-            None => None,
-        };
         match __lookahead {
-            Some((__loc1, __tok @ Tok('b', _, _, _), __loc2)) => {
+            Some((__loc1, __tok @ Tok('d', _, _, _), __loc2)) => {
                 let __sym1 = (__loc1, (__tok), __loc2);
-                __result = __state3(__tokens, __sym0, __sym1, core::marker::PhantomData::<()>)?;
+                __result = __state1(__tokens, __sym0, __sym1, core::marker::PhantomData::<()>)?;
                 return Ok(__result);
             }
             _ => {
                 #[allow(clippy::needless_raw_string_hashes)]
                 let __expected = alloc::vec![
-                    r###""t1""###.to_string(),
+                    r###""t3""###.to_string(),
                 ];
                 return Err(
                     match __lookahead {
@@ -216,12 +302,11 @@ mod __parse__N0 {
         }
     }
 
-    fn __state3<
+    fn __state4<
         __TOKENS: Iterator<Item=Result<(i64, Tok, i64),__lalrpop_util::ParseError<i64, Tok, u64>>>,
     >(
         __tokens: &mut __TOKENS,
         __sym0: (i64, Tok, i64),
-        __sym1: (i64, Tok, i64),
         _: core::marker::PhantomData<()>,
     ) -> Result<(Option<(i64, Tok, i64)>, __Nonterminal<>), __lalrpop_util::ParseError<i64, Tok, u64>>
     {
@@ -232,9 +317,28 @@ mod __parse__N0 {
             None => None,
         };
         match __lookahead {
-            Some((__loc1, __tok @ Tok('d', _, _, _), __loc2)) => {
-                let __sym2 = (__loc1, (__tok), __loc2);
-                __result = __state4(__tokens, __sym0, __sym1, __sym2, core::marker::PhantomData::<()>)?;
+            None => {
+                let __start = __sym0.0.clone();
+                let __end = __sym0.2.clone();
+                let __nt = super::__action14::<>(__sym0);
+                let __nt = __Nonterminal::N0((
+                    __start,
+                    __nt,
+                    __end,
+                ));
+                __result = (__lookahead, __nt);
+                return Ok(__result);
+            }
+            Some((_, Tok('d', _, _, _), _)) => {
+                let __start = __sym0.0.clone();
+                let __end = __sym0.2.clone();
+                let __nt = super::__action17::<>(__sym0);
+                let __nt = __Nonterminal::N2((
+                    __start,
+                    __nt,
+                    __end,
+                ));
+                __result = (__lookahead, __nt);
                 return Ok(__result);
             }
             _ => {
@@ -251,7 +355,7 @@ mod __parse__N0 {
                             }
                         }
                         None => {
-                            let __location = __sym1.2.clone();
+                            let __location = __sym0.2.clone();
                             __lalrpop_util::ParseError::UnrecognizedEof {
                                 location: __location,
                                 expected: __expected,
@@ -263,27 +367,23 @@ mod __parse__N0 {
         }
     }
 
-    fn __state4<
+    fn __state5<
         __TOKENS: Iterator<Item=Result<(i64, Tok, i64),__lalrpop_util::ParseError<i64, Tok, u64>>>,
     >(
         __tokens: &mut __TOKENS,
-        __sym0: (i64, Tok, i64),
+        __lookahead: Option<(i64, Tok, i64)>,
+        __sym0: (i64, Tree, i64),
         __sym1: (i64, Tok, i64),
-        __sym2: (i64, Tok, i64),
+        __sym2: (i64, Tree, i64),
         _: core::marker::PhantomData<()>,
     ) -> Result<(Option<(i64, Tok, i64)>, __Nonterminal<>), __lalrpop_util::ParseError<i64, Tok, u64>>
     {
         let mut __result: (Option<(i64, Tok, i64)>, __Nonterminal<>);
-        let __lookahead = match __tokens.next() {
-            Some(Ok(v)) => Some(v),
-            Some(Err(e)) => return Err(e),
-            None => None,
-        };
         match __lookahead {
             None => {
                 let __start = __sym0.0.clone();
                 let __end = __sym2.2.clone();
-                let __nt = super::__action11::<>(__sym0, __sym1, __sym2);
+                let __nt = super::__action13::<>(__sym0, __sym1, __sym2);
                 let __nt = __Nonterminal::N0((
                     __start,
                     __nt,
@@ -333,9 +433,9 @@ fn __action0<
 fn __action1<
 >(
     (_, l, _): (i64, i64, i64),
-    (_, c0, _): (i64, Tok, i64),
+    (_, c0, _): (i64, Tree, i64),
     (_, c1, _): (i64, Tok, i64),
-    (_, c2, _): (i64, Tok, i64),
+    (_, c2, _): (i64, Tree, i64),
     (_, r, _): (i64, i64, i64),
 ) -> Tree
 {
@@ -346,39 +446,49 @@ fn __action1<
 fn __action2<
 >(
     (_, l, _): (i64, i64, i64),
+    (_, c0, _): (i64, Tok, i64),
     (_, r, _): (i64, i64, i64),
 ) -> Tree
 {
-    node("N1#0", l, r, vec![])
+    node("N0#1", l, r, vec![Tree::from(c0)])
 }
 
 #[allow(clippy::too_many_arguments, clippy::needless_lifetimes, clippy::just_underscores_and_digits, clippy::extra_unused_type_parameters)]
 fn __action3<
 >(
     (_, l, _): (i64, i64, i64),
-    (_, pL0, _): (i64, i64, i64),
     (_, c0, _): (i64, Tok, i64),
     (_, c1, _): (i64, Tok, i64),
     (_, c2, _): (i64, Tree, i64),
     (_, r, _): (i64, i64, i64),
-) -> Tree
+) -> Result<Tree,__lalrpop_util::ParseError<i64,Tok,u64>>
 {
-    { probe("N1#1", 0, 'L', pL0); node("N1#1", l, r, vec![Tree::from(c0), Tree::from(c1), Tree::from(c2)]) }
+    fallible("N1#0", l, r, vec![Tree::from(c0), Tree::from(c1), Tree::from(c2)])
 }
 
 #[allow(clippy::too_many_arguments, clippy::needless_lifetimes, clippy::just_underscores_and_digits, clippy::extra_unused_type_parameters)]
 fn __action4<
 >(
     (_, l, _): (i64, i64, i64),
+    (_, r, _): (i64, i64, i64),
+) -> Result<Tree,__lalrpop_util::ParseError<i64,Tok,u64>>
+{
+    fallible("N2#0", l, r, vec![])
+}
+
+#[allow(clippy::too_many_arguments, clippy::needless_lifetimes, clippy::just_underscores_and_digits, clippy::extra_unused_type_parameters)]
+fn __action5<
+>(
+    (_, l, _): (i64, i64, i64),
     (_, c0, _): (i64, Tok, i64),
     (_, r, _): (i64, i64, i64),
 ) -> Tree
 {
-    node("N1#2", l, r, vec![Tree::from(c0)])
+    node("N2#1", l, r, vec![Tree::from(c0)])
 }
 
 #[allow(clippy::needless_lifetimes, clippy::clone_on_copy)]
-fn __action5<
+fn __action6<
 >(
     __lookbehind: &i64,
     __lookahead: &i64,
@@ -388,7 +498,7 @@ fn __action5<
 }
 
 #[allow(clippy::needless_lifetimes, clippy::clone_on_copy)]
-fn __action6<
+fn __action7<
 >(
     __lookbehind: &i64,
     __lookahead: &i64,
@@ -399,17 +509,17 @@ fn __action6<
 
 #[allow(clippy::too_many_arguments, clippy::needless_lifetimes,
     clippy::just_underscores_and_digits, clippy::clone_on_copy, clippy::unit_arg)]
-fn __action7<
+fn __action8<
 >(
-    __0: (i64, Tok, i64),
+    __0: (i64, Tree, i64),
     __1: (i64, Tok, i64),
-    __2: (i64, Tok, i64),
+    __2: (i64, Tree, i64),
     __3: (i64, i64, i64),
 ) -> Tree
 {
     let __start0 = __0.0.clone();
     let __end0 = __0.0.clone();
-    let __temp0 = __action6(
+    let __temp0 = __action7(
         &__start0,
         &__end0,
     );
@@ -425,14 +535,15 @@ fn __action7<
 
 #[allow(clippy::too_many_arguments, clippy::needless_lifetimes,
     clippy::just_underscores_and_digits, clippy::clone_on_copy, clippy::unit_arg)]
-fn __action8<
+fn __action9<
 >(
-    __0: (i64, i64, i64),
+    __0: (i64, Tok, i64),
+    __1: (i64, i64, i64),
 ) -> Tree
 {
     let __start0 = __0.0.clone();
     let __end0 = __0.0.clone();
-    let __temp0 = __action6(
+    let __temp0 = __action7(
         &__start0,
         &__end0,
     );
@@ -440,36 +551,29 @@ fn __action8<
     __action2(
         __temp0,
         __0,
+        __1,
     )
 }
 
 #[allow(clippy::too_many_arguments, clippy::needless_lifetimes,
     clippy::just_underscores_and_digits, clippy::clone_on_copy, clippy::unit_arg)]
-fn __action9<
+fn __action10<
 >(
     __0: (i64, Tok, i64),
     __1: (i64, Tok, i64),
     __2: (i64, Tree, i64),
     __3: (i64, i64, i64),
-) -> Tree
+) -> Result<Tree,__lalrpop_util::ParseError<i64,Tok,u64>>
 {
     let __start0 = __0.0.clone();
     let __end0 = __0.0.clone();
-    let __start1 = __0.0.clone();
-    let __end1 = __0.0.clone();
-    let __temp0 = __action6(
+    let __temp0 = __action7(
         &__start0,
         &__end0,
     );
     let __temp0 = (__start0, __temp0, __end0);
-    let __temp1 = __action6(
-        &__start1,
-        &__end1,
-    );
-    let __temp1 = (__start1, __temp1, __end1);
     __action3(
         __temp0,
-        __temp1,
         __0,
         __1,
         __2,
@@ -479,15 +583,14 @@ fn __action9<
 
 #[allow(clippy::too_many_arguments, clippy::needless_lifetimes,
     clippy::just_underscores_and_digits, clippy::clone_on_copy, clippy::unit_arg)]
-fn __action10<
+fn __action11<
 >(
-    __0: (i64, Tok, i64),
-    __1: (i64, i64, i64),
-) -> Tree
+    __0: (i64, i64, i64),
+) -> Result<Tree,__lalrpop_util::ParseError<i64,Tok,u64>>
 {
     let __start0 = __0.0.clone();
     let __end0 = __0.0.clone();
-    let __temp0 = __action6(
+    let __temp0 = __action7(
         &__start0,
         &__end0,
     );
@@ -495,31 +598,6 @@ fn __action10<
     __action4(
         __temp0,
         __0,
-        __1,
-    )
-}
-
-#[allow(clippy::too_many_arguments, clippy::needless_lifetimes,
-    clippy::just_underscores_and_digits, clippy::clone_on_copy, clippy::unit_arg)]
-fn __action11<
->(
-    __0: (i64, Tok, i64),
-    __1: (i64, Tok, i64),
-    __2: (i64, Tok, i64),
-) -> Tree
-{
-    let __start0 = __2.2.clone();
-    let __end0 = __2.2.clone();
-    let __temp0 = __action5(
-        &__start0,
-        &__end0,
-    );
-    let __temp0 = (__start0, __temp0, __end0);
-    __action7(
-        __0,
-        __1,
-        __2,
-        __temp0,
     )
 }
 
@@ -527,19 +605,21 @@ fn __action11<
     clippy::just_underscores_and_digits, clippy::clone_on_copy, clippy::unit_arg)]
 fn __action12<
 >(
-    __lookbehind: &i64,
-    __lookahead: &i64,
+    __0: (i64, Tok, i64),
+    __1: (i64, i64, i64),
 ) -> Tree
 {
-    let __start0 = __lookbehind.clone();
-    let __end0 = __lookahead.clone();
-    let __temp0 = __action5(
+    let __start0 = __0.0.clone();
+    let __end0 = __0.0.clone();
+    let __temp0 = __action7(
         &__start0,
         &__end0,
     );
     let __temp0 = (__start0, __temp0, __end0);
-    __action8(
+    __action5(
         __temp0,
+        __0,
+        __1,
     )
 }
 
@@ -547,19 +627,19 @@ fn __action12<
     clippy::just_underscores_and_digits, clippy::clone_on_copy, clippy::unit_arg)]
 fn __action13<
 >(
-    __0: (i64, Tok, i64),
+    __0: (i64, Tree, i64),
     __1: (i64, Tok, i64),
     __2: (i64, Tree, i64),
 ) -> Tree
 {
     let __start0 = __2.2.clone();
     let __end0 = __2.2.clone();
-    let __temp0 = __action5(
+    let __temp0 = __action6(
         &__start0,
         &__end0,
     );
     let __temp0 = (__start0, __temp0, __end0);
-    __action9(
+    __action8(
         __0,
         __1,
         __2,
@@ -576,12 +656,76 @@ fn __action14<
 {
     let __start0 = __0.2.clone();
     let __end0 = __0.2.clone();
-    let __temp0 = __action5(
+    let __temp0 = __action6(
+        &__start0,
+        &__end0,
+    );
+    let __temp0 = (__start0, __temp0, __end0);
+    __action9(
+        __0,
+        __temp0,
+    )
+}
+
+#[allow(clippy::too_many_arguments, clippy::needless_lifetimes,
+    clippy::just_underscores_and_digits, clippy::clone_on_copy, clippy::unit_arg)]
+fn __action15<
+>(
+    __0: (i64, Tok, i64),
+    __1: (i64, Tok, i64),
+    __2: (i64, Tree, i64),
+) -> Result<Tree,__lalrpop_util::ParseError<i64,Tok,u64>>
+{
+    let __start0 = __2.2.clone();
+    let __end0 = __2.2.clone();
+    let __temp0 = __action6(
         &__start0,
         &__end0,
     );
     let __temp0 = (__start0, __temp0, __end0);
     __action10(
+        __0,
+        __1,
+        __2,
+        __temp0,
+    )
+}
+
+#[allow(clippy::too_many_arguments, clippy::needless_lifetimes,
+    clippy::just_underscores_and_digits, clippy::clone_on_copy, clippy::unit_arg)]
+fn __action16<
+>(
+    __lookbehind: &i64,
+    __lookahead: &i64,
+) -> Result<Tree,__lalrpop_util::ParseError<i64,Tok,u64>>
+{
+    let __start0 = __lookbehind.clone();
+    let __end0 = __lookahead.clone();
+    let __temp0 = __action6(
+        &__start0,
+        &__end0,
+    );
+    let __temp0 = (__start0, __temp0, __end0);
+    __action11(
+        __temp0,
+    )
+}
+
+#[allow(clippy::too_many_arguments, clippy::needless_lifetimes,
+    clippy::just_underscores_and_digits, clippy::clone_on_copy, clippy::unit_arg)]
+fn __action17<
+>(
+    __0: (i64, Tok, i64),
+) -> Tree
+{
+    let __start0 = __0.2.clone();
+    let __end0 = __0.2.clone();
+    let __temp0 = __action6(
+        &__start0,
+        &__end0,
+    );
+    let __temp0 = (__start0, __temp0, __end0);
+    __action12(
         __0,
         __temp0,
     )
